@@ -1,4 +1,5 @@
 import Emerge.Proofs.Follow
+import Emerge.Proofs.Follow2
 /-
   C10 — the direct (followpos) pattern-to-DFA construction.
 
@@ -7,16 +8,22 @@ import Emerge.Proofs.Follow
   unrepaired code got wrong (`fixed: property=C10` in known_findings.json) — and the tree the second
   mapper set builds for a quantified expression (`quantNode`: copies, options, star) has the language
   of the quantifier's documented meaning.
-  One half of the correctness of the followpos sets (`C10_paths`): every word of the language of a
-  tree has a marking (each character paired with the position of the leaf that matches it) whose
-  first position is in `firstPos`, whose last position is in `lastPos`, and in which every position
-  is followed by a position of the follow set `computeFollows` computed for it (whatever the map
-  held before) - i.e. every sentence is a path through the position automaton, so the direct route
-  loses no sentence. Positions need not be distinct for this half.
-  NOT proved: the other half (every path spells a sentence - the "local language" property, which
-  needs the positions to be distinct), and that the `while` loop of `ToDFA` is the subset
-  construction over these sets; both are decided per pattern by comparing the automaton with the
-  proved derivative oracle (checks/c10.py).
+  The followpos sets are correct (Glushkov / McNaughton-Yamada, for the n-ary trees of the code):
+  * `C10_paths`: every word of the language of a tree has a marking (each character paired with the
+    position of the leaf that matches it) whose first position is in `firstPos`, whose last position
+    is in `lastPos`, and in which every position is followed by a position of the follow set
+    `computeFollows` computed for it - every sentence is a run of the position automaton (positions
+    need not be distinct for this half);
+  * `C10_local`: in a tree whose leaves carry distinct positions, every run - leaves only, start in
+    `firstPos`, steps along the follow sets computed from the empty map, end in `lastPos` - is a
+    marked word of the tree (the "local language" property: alternations keep a run inside one
+    operand, concatenations are crossed left to right, a star is cut into iterations);
+  * `C10_position_automaton`: hence the automaton accepts exactly the language; `C10_build_lin`: the
+    tree `ast.Parse` hands over (end marker appended, `indexChars`) has distinct positions.
+  NOT proved: that the `while` loop of `ToDFA` is the subset construction over these sets, that the
+  second mapper set's tree has the pattern's documented language beyond the quantifier case, and the
+  dependency's `Minimize`; these are decided per pattern by comparing the automaton with the proved
+  derivative oracle (checks/c10.py).
 -/
 namespace Emerge.Props.C10
 open Emerge Emerge.Regex Emerge.Regex.Follow
@@ -64,6 +71,25 @@ theorem C10_paths (n : Node) (w : List Rune) (h : Node.lang n w) :
   · intro p q ha M; exact follow_sound n m hm p q ha M
   · intro init a hr; exact last_sound n init a (hr ▸ hm)
   · intro hr; exact (mlang_nil_iff n).mp (hr ▸ hm)
+
+/-- **Every run is a sentence** (distinct positions): a non-empty sequence of leaves that starts in `firstPos`, steps along
+    the follow relation and ends in `lastPos` is a marked word of the tree. -/
+theorem C10_local (n : Node) (hl : Lin n) (m : MWord)
+    (hp : IsPath n.firstPos n.lastPos (Fol n) (leaves n) m) : Node.mlang n m := local_lang n hl m hp
+
+/-- the follow sets computed from the empty map are exactly the follow relation -/
+theorem C10_follow_exact (n : Node) (p q : Nat) (h : q ∈ (computeFollows [] n).get p) : Fol n p q :=
+  computed_follow_is_Fol n p q h
+
+/-- **The position automaton accepts exactly the language** of a tree with distinct positions: a string is in the language
+    iff it is empty and the tree nullable, or it is spelled by an accepting run (leaves only; first, follow and last sets
+    as the code computes them). -/
+theorem C10_position_automaton (n : Node) (hl : Lin n) (w : List Rune) :
+    Node.lang n w ↔ (w = [] ∧ n.nullable = true) ∨ ∃ m, Accepting n m ∧ m.map (·.2) = w :=
+  position_automaton_lang n hl w
+
+/-- the tree `ast.Parse` hands to `ToDFA` (pattern, end marker appended, `indexChars`) has distinct positions -/
+theorem C10_build_lin (T : ClassTable) (p : Pat) : Lin (build T p).root := build_lin T p
 
 /-- Non-vacuity / regression: the trees of `a?`, `(a*)b` … : a concatenation of nullable operands is nullable,
     `a{0}` (an empty concatenation) is nullable, `ab?` is not. -/
